@@ -81,7 +81,14 @@ static JanetSlot quasiquote(JanetFopts opts, Janet x, int depth, int level) {
                     if (level == 0) {
                         JanetFopts subopts = janetc_fopts_default(opts.compiler);
                         subopts.flags |= JANET_FOPTS_ACCEPT_SPLICE;
-                        return janetc_value(subopts, tup[1]);
+                        /* Nesting inside the quasiquote counts against the compiler's recursion
+                         * budget, so alternating quasiquote/unquote cannot recurse without bound. */
+                        JanetCompiler *c = opts.compiler;
+                        int32_t saved_guard = c->recursion_guard;
+                        if (depth < c->recursion_guard) c->recursion_guard = depth;
+                        JanetSlot ret = janetc_value(subopts, tup[1]);
+                        c->recursion_guard = saved_guard;
+                        return ret;
                     } else {
                         level--;
                     }
@@ -126,7 +133,7 @@ static JanetSlot janetc_quasiquote(JanetFopts opts, int32_t argn, const Janet *a
         janetc_cerror(opts.compiler, "expected 1 argument to quasiquote");
         return janetc_cslot(janet_wrap_nil());
     }
-    return quasiquote(opts, argv[0], JANET_RECURSION_GUARD, 0);
+    return quasiquote(opts, argv[0], opts.compiler->recursion_guard, 0);
 }
 
 static JanetSlot janetc_unquote(JanetFopts opts, int32_t argn, const Janet *argv) {
